@@ -90,6 +90,28 @@ theorem collapse_single (c : Char) : collapseSigns [c] = [c] := Proofs.C01.colla
 
 example : collapseSigns "~-+--".toList = "~-".toList ∧ collapseSigns ":--".toList = ":+".toList := by decide
 
+/-- C01.6a  Token-level form of "an implicit intercept on every right-hand part": for a one-sided
+formula whose operator tokens contain neither `~` nor `|` and which has no literal `0`, the parser's
+token rewriting is exactly "prepend `1 +`" (then adjacent sign tokens are merged), for every token
+list. (Trying to prove this for names as well as operators exposed the quoted-`~` defect.) -/
+theorem intercept_plain (ts : List Tok) (hne : ts ≠ [])
+    (h1 : ∀ t ∈ ts, Proofs.C01.NoSep '~' t) (h2 : ∀ t ∈ ts, Proofs.C01.NoSep '|' t)
+    (hz : ∀ t ∈ ts, ¬ (t.kind = some .value ∧ t.text = ['0'])) :
+    (interceptTokens true ts).1 = mergeSigns (tokOne :: tokPlus :: ts) :=
+  Proofs.C01.intercept_plain ts hne h1 h2 hz
+
+/-- C01.6b  … and a parser configured without the implicit intercept inserts nothing. -/
+theorem no_intercept_plain (ts : List Tok)
+    (h1 : ∀ t ∈ ts, Proofs.C01.NoSep '~' t) (h2 : ∀ t ∈ ts, Proofs.C01.NoSep '|' t)
+    (hz : ∀ t ∈ ts, ¬ (t.kind = some .value ∧ t.text = ['0'])) :
+    (interceptTokens false ts).1 = mergeSigns ts :=
+  Proofs.C01.no_intercept_plain ts h1 h2 hz
+
+/-- a column literally named `~` (a name token) does not stop the intercept from being inserted -/
+example : (interceptTokens true [{ text := ['~'], kind := some .name }, Tok.synth "+" .operator, Tok.synth "a" .name]).1
+    = [tokOne, tokPlus, { text := ['~'], kind := some .name }, Tok.synth "+" .operator, Tok.synth "a" .name] := by
+  decide
+
 /-- C01.8a  `a * b = a + b + a:b` on ordered term sets (same terms, same order), for all operands. -/
 theorem denote_mul (a b : List Term) :
     osetUnion (oset (a ++ b)) (osetProd a b) = osetUnion (osetUnion a b) (osetProd a b) := rfl
